@@ -27,10 +27,20 @@ def gen_enums(rng):
     out, info = [], []
     for i in range(rng.randint(1, 4)):
         name = "EN%d" % i
-        style = rng.choice(["seq", "neg", "big", "dup", "sparse", "fixed-u8", "fixed-i64", "fixed-u32", "huge-u"])
+        style = rng.choice(["seq", "neg", "big", "dup", "sparse", "fixed-u8", "fixed-i64", "fixed-u32", "huge-u", "fixed-u8", "fixed-u32", "fixed-u64"])
         n = rng.randint(1, 5)
         vals, cur = [], 0
-        under = {"fixed-u8": "unsigned char", "fixed-i64": "long long", "fixed-u32": "unsigned int"}.get(style)
+        under = {"fixed-u8": "unsigned char", "fixed-i64": "long long", "fixed-u32": "unsigned int", "fixed-u64": "unsigned long long"}.get(style)
+        if under and rng.random() < 0.6:
+            # the fixed underlying type reached through a typedef chain (as <stdint.h> spells uint8_t .. uint64_t), with values in the
+            # upper half of its range
+            depth = rng.randint(1, 3)
+            prev = under
+            for q in range(depth):
+                tn = "ut%d_%d" % (i, q)
+                out.append("typedef %s %s;" % (prev, tn))
+                prev = tn
+            under = prev
         for j in range(n):
             if style == "neg" and j == 0:
                 cur = -rng.randint(1, 1000)
@@ -44,6 +54,12 @@ def gen_enums(rng):
                 cur += rng.randint(1, 1000)
             if style == "fixed-u8":
                 cur = min(cur, 255)
+                if j == n - 1:
+                    cur = rng.choice([128, 200, 255])
+            if style == "fixed-u32" and j == n - 1:
+                cur = rng.choice([0x80000000, 0xFFFFFFFF, 0xC0000000])
+            if style == "fixed-u64" and j == n - 1:
+                cur = rng.choice([2 ** 63, 2 ** 64 - 1])
             if style == "fixed-i64" and j == 0:
                 cur = -2 ** 40
             vals.append(("%s_v%d" % (name, j), cur))
